@@ -10,6 +10,7 @@ CONSTANTS
   MaxClient = 3
   MaxCrash = 0
   MaxHalf = 2
+  MaxCfg = 0
   MaxRead = 0
   MaxSnap = 0
   SnapSize = 1
